@@ -77,6 +77,8 @@ def gen_case(rng, backend):
         kind = "plain"
         if backend == "duckdb":
             kind = rng.choice(["plain", "plain", "salted", "exploding"])
+        else:  # SQLite has no arrays; salted rules run there too (its random() is an integer)
+            kind = rng.choice(["plain", "plain", "salted"])
         if kind == "exploding":
             if rng.random() < 0.35:
                 # two exploded arrays: the exploded table must hold the cross product of elements
@@ -97,7 +99,7 @@ def gen_case(rng, backend):
         src = rng.randrange(len(rules))
         if not (isinstance(rules[src], dict) and "arrays_to_explode" in rules[src]):
             txt = rule_sql(rules[src])
-            dup = {"blocking_rule": txt, "salting_partitions": 2} if backend == "duckdb" and rng.random() < 0.5 else txt
+            dup = {"blocking_rule": txt, "salting_partitions": 2} if rng.random() < 0.5 else txt
             rules.insert(rng.randint(src + 1, len(rules)), dup)
     # the same link job may be presented as ONE pre-concatenated table with a source_dataset column
     one_table = ntab > 1 and rng.random() < 0.2
